@@ -1211,6 +1211,27 @@ def build_kinds():
         Row("overlap", D_int(-100, 100, extra_bnd=(0, 1, -1)), [-101, 101, 1.5, "x", None],
             src="chart/plot.py:153"),
     ]))
+    # a plot whose data labels are already configured: assigning has_data_labels = True AGAIN leaves them as they are
+    def prep_labelled_plot(anchor):
+        anchor.has_data_labels = True
+        dl = anchor.data_labels
+        dl.show_value = False
+        dl.show_category_name = True
+        dl.number_format = "0.0"
+
+    def labels_reading(o, ch):
+        if not o.has_data_labels:
+            return None
+        dl = o.data_labels
+        return [dl.show_value, dl.show_category_name, dl.show_series_name, dl.show_percentage, dl.number_format]
+
+    K.append(Kind("bar-plot-labelled", "BarPlot", b_bar_chart, sub=SH("chart.plots") + [["idx", 0]],
+                  prepare=prep_labelled_plot, cost=2, rows=[
+        Row("has_data_labels", D_bool(), [], affects=("labels",),
+            expect=lambda v, before: ({"labels": before["labels"]} if (v is True and before["has_data_labels"] is True)
+                                      else {}), src="chart/plot.py:66"),
+        Row("vary_by_categories", D_bool(), [], src="chart/plot.py:104"),
+    ], readings={"labels": labels_reading}))
     K.append(Kind("line-plot", "LinePlot", b_line_chart, sub=SH("chart.plots") + [["idx", 0]],
                   locate=loc_line_chart, cost=2, rows=base_plot_rows()))
     for nm, cls_, bld in (("pie-plot", "PiePlot", b_pie_chart), ("xy-plot", "XyPlot", b_xy_chart),
